@@ -135,7 +135,7 @@ def _chunk(args):
         agg["faults"].update(out.faults)
         agg["sim_time"] += out.sim_time
         agg["steps"] += out.steps
-        if len(agg["samples"]) < 2 and out.nontrivial:
+        if len(agg["samples"]) < 2 and (out.nontrivial or (out.digests and any(nt for _, nt in out.digests))):
             agg["samples"].append({"scenario": sc, "observed": out.info})
         if out.viol and len(agg["viol"]) < 6:
             wsc = out.witness or sc
